@@ -367,13 +367,77 @@ fn replay(args: &Args, path: &str) {
 }
 
 pub fn run(args: &Args) {
-    if let Some(p) = &args.replay { replay(args, p); return; }
+    if let Some(p) = &args.replay {
+        let k = replay_kind(p);
+        if k == "migration_probe" { let mut o = Out::new(&args.out); replay_probe(&mut o, &mut |o| migration_probe(o)); }
+        if k == "distributor_distribution_asset_change" { let mut o = Out::new(&args.out); replay_probe(&mut o, &mut |o| distribution_asset_change_probe(o)); }
+        replay(args, p); return;
+    }
     let mut out = Out::new(&args.out);
     out.rule = "a history = bonds/unbonds of 3 bonders interleaved with NewEpoch (fees forwarded by the real collector, incl. zero and a collector fault), Claim and \
                 grace-period changes (increase, decrease, out of range, non-owner) until >= grace+2 epochs exist; non-trivial = >= grace+2 epochs created, \
                 >= 2 claims that paid something and >= 1 non-zero roll-over of an expiring epoch; distinct = by hash of the model input".into();
     let mut rng = Rng::new(args.seed);
     corpus(&mut out);
+    migration_probe(&mut out);
+    distribution_asset_change_probe(&mut out);
     for _ in 0..args.n { gen_history(&mut out, &mut rng); }
     out.finish();
+}
+
+/// four funded epochs (grace 3), one partly claimed; the clock is then several days past the end of the current epoch (epoch creation
+/// lags). `migrate` on a copy of the distributor's storage one patch version back (migr.rs): the epochs it reports stay what they were.
+fn migration_probe(out: &mut Out) {
+    let (t0, d, s) = (GENESIS_DEFAULT, DAY_NS, 1_000_000_000u64);
+    let mut x = Exec::new(3, DEC_ONE);
+    let mut scratch = Out::new(&format!("{}/scratch_migr", out.dir));
+    for (t, e) in [
+        (t0, Ev::Bond { who: 0, denom: 0, amount: 1_000 }),
+        (t0, Ev::Bond { who: 1, denom: 1, amount: 3_000 }),
+        (t0, Ev::NewEpoch { sender: 1, fee: 10_000, collector_ok: true }),
+        (t0 + d, Ev::NewEpoch { sender: 2, fee: 7_777, collector_ok: true }),
+        (t0 + d + s, Ev::Claim { who: 0 }),
+        (t0 + 2 * d, Ev::NewEpoch { sender: 0, fee: 123_456, collector_ok: true }),
+        (t0 + 3 * d, Ev::NewEpoch { sender: 0, fee: 5, collector_ok: true }),
+    ] { x.exec(&mut scratch, t, &e); }
+    let dump = x.w.app.dump_wasm_raw(&x.w.distributor);
+    let b = x.w.app.block_info();
+    // at the current block, and with epoch creation several days overdue
+    crate::migr::probe_distributor(out, &dump, b.time, b.height);
+    crate::migr::probe_distributor(out, &dump, b.time.plus_nanos(5 * d + 17), b.height + 80_000);
+}
+
+/// The owner changes the distribution asset while an epoch inside the grace window still holds unclaimed fees of the previous asset.
+/// When that epoch leaves the window its remainder is rolled into the epoch created then - in whatever asset it is - so that at all
+/// times the distributor's balance of an asset equals the sum of what its epochs still hold of it. (Monitor only: the distributor
+/// machine has one distribution asset.)
+fn distribution_asset_change_probe(out: &mut Out) {
+    use cw_multi_test::Executor;
+    let (t0, d) = (GENESIS_DEFAULT, DAY_NS);
+    for grace in [1u64, 2] {
+        let mut x = Exec::new(grace, DEC_ONE);
+        let mut scratch = Out::new(&format!("{}/scratch_dist", out.dir));
+        x.exec(&mut scratch, t0, &Ev::Bond { who: 0, denom: 0, amount: 1_000 });
+        x.exec(&mut scratch, t0, &Ev::NewEpoch { sender: 1, fee: 10_000, collector_ok: true });
+        let owner = Addr::unchecked(OWNER);
+        let dist = x.w.distributor.clone();
+        let r = x.w.app.execute_contract(owner, dist.clone(), &fd::ExecuteMsg::UpdateConfig { owner: None, bonding_contract_addr: None, fee_collector_addr: None,
+            grace_period: None, distribution_asset: Some(native("uusdc")), epoch_config: None }, &[]);
+        if r.is_err() { out.count("dist_asset_change:update_rejected"); continue; }
+        let replay = json!({"kind": "distributor_distribution_asset_change", "grace_period": grace,
+            "script": "bond; NewEpoch with 10000 uwhale; UpdateConfig{distribution_asset: uusdc}; NewEpoch every day until the first epoch has left the grace window"});
+        for k in 1..=(grace + 2) {
+            x.w.set_time(t0 + k * d);
+            let r = x.w.new_epoch(U[1]);
+            out.monitor_evals += 1;
+            if r.is_err() { out.count("dist_asset_change:new_epoch_rejected"); continue; }
+            out.count("dist_asset_change:new_epoch_created");
+            let cur = x.w.q_current_epoch().id.u64();
+            let held: u128 = (1..=cur).map(|id| asset_amount(&x.w.q_epoch(id).available, DIST)).sum();
+            let bal = x.w.bal(dist.as_str(), DIST);
+            if held != bal {
+                out.monitor_fail("C09", &format!("after epoch {} was created the distributor holds {} {} but its epochs account for {}", cur, bal, DIST, held), replay.clone());
+            }
+        }
+    }
 }
